@@ -708,8 +708,10 @@ class ConnectionChoiceNode(ChoiceNode):
         for node in nodes:
             deriving_nodes = []
             if isinstance(node, ConnectorDegreeGroupingNode):
-                for prev_node in graph.predecessors(node):
-                    if isinstance(prev_node, ConnectorNode):
+                # Only derivation edges define the grouped connectors (not e.g. exclusion edges)
+                for in_edge in iter_in_edges(graph, node, edge_type=EdgeType.DERIVES):
+                    prev_node = in_edge[0]
+                    if isinstance(prev_node, ConnectorNode) and prev_node not in deriving_nodes:
                         deriving_nodes.append(prev_node)
             node_derivations[node] = deriving_nodes
         return node_derivations
